@@ -20,15 +20,17 @@ CLAIMS = {
  'C08': dict(
   technique='Lean 4 fault-safety theorem for the write path of the durable machine (failures with or without effect) + exhaustive single-fault enumeration on the real DB',
   text=('Props/C08.lean: fault_safe_partial — with every journal write/sync allowed to fail with or without effect at any position, the running buffer is exactly the acknowledged groups plus the one being applied, a reopen returns all acknowledged groups and only issued ones, every crash image opens with every sync-acknowledged group; '
+        'Tie to the model (trace validation): 200 dedicated fault runs per check (journal Write/Sync failing with or without effect) record every journal operation, its outcome, the bytes that reached the file and the call result; the compiled Dur.step must accept every step (record bytes = the machine\'s group at db.seq+1, no ack before the Sync of a sync write) and predict the contents of the running DB, of a clean reopen and of a crash image (~8 000 driver lines). '
         'd4_loses_acked_write is the explicit losing trace of the code as found (a failed journal write did not consume its sequence numbers — defect D4, found and fixed; the Cfg flag is the regenerated behaviour). The recovery function it relies on is the one tied to the code by C04\'s image differential. '
         'Implementation side, per run ~2 700 fault plans: every class (operation kind x file type x client call in progress) x first/last/random position x with/without effect, bursts, pairs, "all removes fail"; continued use, close/reopen twice, final reopen on a clean clone; oracle: acknowledged writes present, failed writes whole or absent, reads may fail but never disagree, '
         'single-byte damage of table blocks and journal chunks is reported or drops whole batches; watchdog per call. Defects D4 D25 D27 found and fixed here.'),
-  note=('Partial: fault_safe_full (flush, compaction, manifest and transaction steps under faults) is stated, not proved. Known findings matched by signature: D8 (poisoned manifest writer: retry loop holds compCommitLk), D10 (a manifest record that reached the file although commit reported failure: Open fails with missing files after Discard/revert), '
+  note=('Partial: fault_safe_full (flush, compaction, manifest and transaction steps under faults) is stated, not proved. Defect D8 (poisoned manifest writer: the commit retry loop held compCommitLk for good) was found here and repaired. Known findings matched by signature: D10 (a manifest record that reached the file although commit reported failure: Open fails with missing files after Discard/revert), '
         'D26 (SetMeta failing after taking effect). Table Close failures are outside the fault alphabet.')),
  'C19': dict(
   technique='Lean 4 theorems over the rebuild (all tables to level 0, max sequence, journals replayed) + Recover on settled DBs with damaged manifests and blocks',
   text=('3 theorems (Props/C19.lean): recover_rebuilds (for a settled state the rebuilt all-level-0 version with seq = max seen has the same contents), recover_rebuilds_damaged (with unreadable entries: every readable entry without a newer version is returned, nothing invented), rebuilt_lookup_refines_view (via the level-0 max-seq lookup theorem of C01). '
         'Implementation side, per run 8 000 evaluations: settled histories over five comparers, filter on/off, compression on/off, newest writes left in journals; manifest deleted / CURRENT cleared / truncated / garbage; 1-3 damaged data blocks; Recover must succeed, return exactly the plain map (or, with damage, every undamaged newest entry and nothing unwritten), Get must agree with iteration, the DB must be usable afterwards. '
+        'Tie to the model: for a sample of the images the journals (bytes) and tables (their readable entries) of the image before Recover go to the compiled model, whose rebuild (Dur recovery over all tables at level 0, max sequence, journals replayed) must give the digest of what the real Recover returned. '
         'Defect D19 (rebuild with the user comparer/filter) found and fixed.'),
   note='Partial: the theorems are stated over the abstract rebuild input (Settled, Uniq hypotheses); recoverTable\'s file handling (rename, temp files) is covered by the implementation-side oracle only.'),
 
@@ -42,19 +44,19 @@ CLAIMS = {
   note='Physical removal is deferred through the file cache (C17.del_after_last_handle). Abandoned ids and the final release at Close are modelled and trace-checked but not covered by the theorems.'),
  'C09': dict(
   technique='Lean 4 lock-flow model with regenerated release facts (released_on_return, progress, termination measure, close_returns) + fault scripts and Close races under watchdogs',
-  text=('21 theorems (Props/C09.lean) over Model/Locks.lean (write-lock token, compCommitLk, compaction command/ack rendezvous with their closeC/error alternatives, every public call as a control-flow graph with ok/fail storage outcomes): for every configuration '
+  text=('26 theorems (Props/C09.lean) over Model/Locks.lean (write-lock token, compCommitLk, compaction command/ack rendezvous with their closeC/error alternatives, every public call as a control-flow graph with ok/fail storage outcomes): for every configuration '
         'whose three release flags are set (code_three_fixed is decided over facts read off the Go AST: Transaction.Commit unlocks compCommitLk on its error return, OpenTransaction returns the token on its error returns, DB.Write discards after a failed commit) '
         'and runs without SetReadOnly: released_on_return, progress (a step is enabled while a call is pending), recovers_after_faults (a measure decreases on every fault-free step), close_returns; explicit hanging runs for each flag unset (leak_commit, leak_opentx, '
         'leak_largebatch: defects D5 D6 D7, found by this check and fixed) and for the SetReadOnly/Close race (leak_setreadonly: defect D23, first derived from this model, then reproduced on the code and fixed); code_all_fixed decides that all four release facts now hold, so the theorems cover every reachable state of the configuration of the code. Tie: the extracted facts; per run ~45 single-client scripts with one injected failure window on journal/manifest/table '
         'create/write/sync/remove and ~25 races of 4-24 clients (Put, large Write, transactions, CompactRange, readers) against one Close; every call under a watchdog; after the faults stop put, transaction, large batch, CompactRange, Get and Close must return.'),
   note=('Partial: liveness is termination under fairness in the model and "returned within the watchdog" on the implementation; timers/back-off are outside the model. '
-        'Known finding D8: a failed manifest write poisons the manifest journal writer and the commit retry loop then holds compCommitLk for good.')),
+        'Defect D8 (a failed manifest write poisoned the manifest journal writer and the commit retry loop then held compCommitLk for good) was found by the fault scripts and repaired.')),
  'C11': dict(
   technique='Lean 4 theorems over the interleaving model (transaction steps) + crash images and commit faults around transactions on the real DB',
   text=('5 theorems (Props/C11.lean, over Model/Conc.lean): tr_reads (reads inside see the DB at open plus the private entries), tr_freezes_history, tr_isolation (no reader outside observes a private entry while the transaction is open), tr_commit_atomic (one publication step makes all of them visible), '
         'tr_discard_clean. Tie: the t.open/t.installed/t.publish/t.done hook events of concurrent runs are replayed through Conc.step (C05 trace validation); single-client programs check visibility inside/outside (C01 runner); this check takes crash images around OpenTransaction..Commit/Discard '
         '(bodies spanning several internal flushes, large batches): committed = entirely present in every later image, discarded/in flight = entirely absent or entirely present; no table of a discarded transaction stays on storage; other writers block while it is open; commit faults + Discard + reopen.'),
-  note='Known findings D8 and D10 (a manifest record that reached the file although commit reported failure) are matched by signature. Durability of a committed transaction across crashes is part of C04\'s theorem.'),
+  note='Known finding D10 (a manifest record that reached the file although commit reported failure, then Discard) is matched by signature; D8 (hang behind a poisoned manifest writer) was repaired. Durability of a committed transaction across crashes is part of C04\'s theorem.'),
  'C14': dict(
   technique='Lean 4 refinement theorem (ideal skip list refines a sorted map and a cursor, for every op sequence and tower height) + state-machine differential against memdb.DB',
   text=('5 theorems (Props/C14.lean): inv_preserved (levels strictly sorted, each a sublist of the one below, level 0 = key domain, n and kvSize exact) for every op and every height in 1..tMaxHeight; memdb_refines_map (Put/Delete/Get/Find/Contains/Len/Size and every iterator call sequence with any range equal the sorted association list / cursor); '
@@ -69,9 +71,9 @@ CLAIMS = {
   note='Partial: the lock-striped resizable hash table is abstracted to a map with atomic per-key steps; finalise_exactly_once_full (at-least-once at quiescence) is kept as a statement and checked by the Go oracle; Close racing a last Release + Get is proved only under the stated guard.'),
  'C18': dict(
   technique='Lean 4 lifecycle table theorems + exhaustive method table on a recording storage',
-  text=('15 theorems (Props/C18.lean): single_owner, second_open_refused, available_after_close, openRO_any_journals, closed_is_closed, released_handles, ro_rejects_writes, ro_no_mutation, setReadOnly_quiesces_partial (and the refutation of the full statement: defect D14, known finding), table_sound. '
+  text=('18 theorems (Props/C18.lean): single_owner, second_open_refused, available_after_close, openRO_any_journals, closed_is_closed, released_handles, ro_rejects_writes, ro_no_mutation, setReadOnly_quiesces (full: once the pending flush, the running compaction and the pinned deletions have settled, NO event sequence — seek-exhausting reads, tCompaction wake-ups, Close — emits a mutating action, for every configuration whose compaction loop parks on the read-only flag), code_setReadOnly_quiesces (the regenerated fact roCompactionParks, read off tCompaction in the Go AST, puts the code in that class), drain_settles, setReadOnly_quiesces_refuted_without_parking (defect D14: found by this check, repaired), table_sound. '
         'Tie: every public method of DB, Snapshot, Transaction and iterator (checked against reflection) is called in each lifecycle state after random histories (journal-only data, tables, pending frozen buffer, open transaction, live handles) on the recording storage: error class and number of mutating storage operations are compared with the model table (~57 000 lines per run); '
-        'lock exclusivity on mem and file storage; read-only open serves the plain map with zero mutating operations; Close races under watchdogs. Defects D15 D18 D28 D29 were found by this check and fixed.'),
+        'lock exclusivity on mem and file storage; read-only open serves the plain map with zero mutating operations; Close races under watchdogs. Defects D14 D15 D18 D28 D29 were found by this check and fixed.'),
   note='Holding an iterator across Close violates Close\'s documented precondition and the shared lock of read-only file storage is by design: both are reported as notes, not violations.'),
 
  'C10': dict(
@@ -86,12 +88,12 @@ CLAIMS = {
 
  'C02': dict(
   technique='Lean 4 refinement theorems (dbIter / merged / indexed iterators refine a cursor over the sorted live pairs, for every call sequence) + state-machine differential against the real iterators',
-  text=('14 theorems (Props/C02.lean): for every lawful comparer, every sorted internal entry list, every snapshot sequence and EVERY finite sequence of First/Last/Seek/Next/Prev, DBIter over the raw list equals the '
+  text=('16 theorems (Props/C02.lean): for every lawful comparer, every sorted internal entry list, every snapshot sequence and EVERY finite sequence of First/Last/Seek/Next/Prev, DBIter over the raw list equals the '
         'specification cursor over `visible` (per user key the newest entry at or below the sequence, if a value), with or without a key range; mergedIterator over children with distinct keys and indexedIterator over ordered blocks '
-        'refine the cursor over their union/concatenation; the whole stack does; corollaries: each live pair once in increasing order, Seek lands on the first key >= k, deleted/overwritten entries never surface. '
+        'refine the cursor over their union/concatenation; level_iter_is_range_filter: the per-level indexed iterator (tFiles.newIndexIterator with searchMax/searchMin cuts and first/last-table slicing) holds exactly the level\'s entries inside the range, also for an inverted range; the whole stack over memdb / frozen / level-0 tables / one indexed iterator per deeper level does; db_iterator_presents_view: over any state satisfying C01.SourcesOK (in newRawIterator order) every call sequence equals the cursor over {(k,v) | view k seq = some v, k in range} = {(k,v) | DB.get k seq = v}; corollaries: each live pair once in increasing order, Seek lands on the first key >= k, deleted/overwritten entries never surface. '
         'Tie: thousands of iterator states per run (merged, indexed, DB/snapshot/transaction iterators over multi-level DBs, three comparers, ranges) are driven through random walks on the real code and on the compiled model; '
         'every answer is also compared with the specification cursor directly on the implementation.'),
-  note='Trusted: Lean kernel; propext, Classical.choice, Quot.sound; harness. Abstracted (differential only): blockIter offset arithmetic, the heap inside mergedIterator, per-table slicing in tFiles.newIndexIterator, error/strict paths, Release.'),
+  note='Trusted: Lean kernel; propext, Classical.choice, Quot.sound; harness. Abstracted (differential only): blockIter offset arithmetic, the heap inside mergedIterator, error/strict paths, Release, sampling.'),
  'C05': dict(
   technique='Lean 4 invariant proofs over an interleaving model of the critical sections (any number of readers/writers) + trace validation of real concurrent runs + linearizability-consequence oracles under stretched windows',
   text=('20 theorems (Props/C05.lean) over Model/Conc.lean, whose atomic steps are the code\'s critical sections (group insert, publish, rotate, flush install, frozen drop, compaction start/commit, snapshot acquire/release, '
@@ -114,9 +116,9 @@ CLAIMS = {
   technique='Lean 4 theorems over a byte-exact model of table.Writer/Reader (blocks, filter block, index, footer) + byte-exact differential and single-byte damage enumeration',
   text=('10 theorems (Props/C13.lean): block decode(build) = id for every restart interval; block seek = first entry >= key; entries(open(write kvs)) = kvs for every block size/restart interval/filter setting; find/get through index and '
         'data block incl. the fall-through equal the specification; offsetOf monotone; filter_partition (keys of the block starting at offset o are in the filter selected by o >> baseLg) and filtered find of a stored key never misses '
-        'for a lawful filter; any single-byte alteration of a verified block is rejected by readRawBlock (over an abstract checksum with the single-byte property proved for CRC32C in C12). Tie: format constants regenerated; per run '
-        '200 tables (thorough 4000) compared byte for byte with the real writer, all reader operations compared on both cached and uncached readers, thousands of damaged files.'),
-  note='Partial: snappy is outside the model (compressed blocks are exercised only by the Go-side round-trip oracle in C01/C16); range-restricted iteration is proved only for the unrestricted case (table_range_full kept as a statement) and tied by the differential; blockIter movement arithmetic is abstracted to a cursor (C02).'),
+        'for a lawful filter; table_range_spec: the range iterator with ANY bounds (inverted, outside the key range) returns exactly the stored pairs with start <= key < limit; any single-byte alteration of a verified block is rejected by readRawBlock (over an abstract checksum with the single-byte property proved for CRC32C in C12). Tie: format constants regenerated; per run '
+        '200 tables (thorough 4000): uncompressed ones compared byte for byte with the real writer, Snappy-compressed ones (every third) read by the model through its own Snappy block decoder (Model/Snappy.lean, mirrors decode_other.go); all reader operations compared on both cached and uncached readers, thousands of damaged files; 1500 hand-built / encoder-made / damaged Snappy streams decoded by snappy.Decode and by the model.'),
+  note='Partial: the Snappy ENCODER is outside the model (compressed tables are tied on the reader side only; the theorems are about uncompressed tables); blockIter movement arithmetic is abstracted to a cursor (C02).'),
  'C16': dict(
   technique='Lean 4 theorems over a bit-exact model of util.Hash and the bloom filter + regenerated constants/expressions + byte-exact differential; DB programs replayed under different filter settings',
   text=('9 theorems (Props/C16.lean): bloom_no_false_negative for every bits-per-key and key set whose bit count does not hit the uint32 wrap window (exactly where Generate panics), bloom_lawful, the iFilter wrapper preserves lawfulness, '
